@@ -278,7 +278,8 @@ static volatile long counter[MAXC];       /* plain shared counters */
 static atomic_long counter_expected[MAXC];
 static volatile long ldreg[MAXT];
 static int shadow_holder[MAXM];           /* sched mode only: tid+1 */
-static ssize_t end_idx[MAXT];
+static ssize_t end_idx[MAXT];               /* the `end` event of the current / last run of thread t */
+static size_t next_ev[MAXT];                /* free mode: where the next run of Thread object t continues in the file */
 
 /* baton */
 static pthread_mutex_t bm = PTHREAD_MUTEX_INITIALIZER;
@@ -603,6 +604,7 @@ static void on_thread_exit(void* v) {
   __real_pthread_mutex_lock(&bm);
   char b[4096]; ledger_text(t, b, sizeof b);
   if (end_idx[t] >= 0) { set_out(&ev[end_idx[t]], "%s", b); check_teardown(t, ev[end_idx[t]].line); }
+  for (int k = 0; k < MAXK; k++) if (alive[t][k] && !isroot[t][k]) alive[t][k] = 0;   /* finalised by the teardown */
   atomic_store(&phase[t], PH_DONE);
   if (!free_mode && end_idx[t] >= 0) {
     /* hand the baton on */
@@ -640,7 +642,9 @@ static void exec_sync_sched(Evt* e) {
   switch (e->op) {
     case OP_SPAWN: {
       int u = (int)e->a;
-      if (u <= 0 || u > nworkers || atomic_load(&phase[u]) != PH_UNBORN) { set_out(e, "bad"); break; }
+      int ph = (u > 0 && u <= nworkers) ? atomic_load(&phase[u]) : -1;
+      if (!(ph == PH_UNBORN || (ph == PH_DONE && was_joined[u]))) { set_out(e, "bad"); break; }
+      was_joined[u] = 0; end_idx[u] = -1;                   /* a joined Thread object may be called again */
       atomic_store(&phase[u], PH_READY); do_spawn(u); set_out(e, "spawned"); break; }
     case OP_JOIN: {
       int u = (int)e->a;
@@ -694,9 +698,14 @@ static void exec_sync_free(Evt* e) {
   set_out(e, "sync");
   switch (e->op) {
     case OP_SPAWN: {
-      int u = (int)e->a; int expect = PH_UNBORN;
-      if (u <= 0 || u > nworkers || !atomic_compare_exchange_strong(&phase[u], &expect, PH_READY)) break;
-      do_spawn(u); break; }
+      int u = (int)e->a;
+      if (u <= 0 || u > nworkers) break;
+      __real_pthread_mutex_lock(&bm);
+      int ph = atomic_load(&phase[u]); int can = ph == PH_UNBORN || (ph == PH_DONE && was_joined[u]);
+      if (can) { was_joined[u] = 0; end_idx[u] = -1; atomic_store(&phase[u], PH_READY); }
+      __real_pthread_mutex_unlock(&bm);
+      if (can) do_spawn(u);
+      break; }
     case OP_JOIN: {
       int u = (int)e->a;
       if (u <= 0 || u > nworkers) break;
@@ -706,7 +715,7 @@ static void exec_sync_free(Evt* e) {
       /* join has returned: the function and the teardown must be over, and what the thread wrote must be visible */
       if (atomic_load(&phase[u]) != PH_DONE) XX("sig=c13-join-early line=%d what=join(thread %d) returned before the thread had finished", e->line, u);
       else { check_teardown(u, e->line); }
-      if (end_idx[u] >= 0 && (long)c_int(pub_obj[u]) != last_pub[u]) XX("sig=c13-join-stale line=%d what=after join(thread %d) its published value reads %ld, last written %ld", e->line, u, (long)c_int(pub_obj[u]), last_pub[u]);
+      if (end_idx[u] >= 0 && (long)c_int(pub_obj[u]) != ev[end_idx[u]].c) XX("sig=c13-join-stale line=%d what=after join(thread %d) its published value reads %ld, last written %ld", e->line, u, (long)c_int(pub_obj[u]), ev[end_idx[u]].c);
       break; }
     case OP_LOCK: { int m = (int)e->a % MAXM; if (holds[m]) break; c_lock(mutex_obj[m], e->line); sec_enter(m, e->line); break; }
     case OP_ENTER: { int m = (int)e->a % MAXM; if (holds[m]) break; c_enter(mutex_obj[m], e->line); sec_enter(m, e->line); break; }
@@ -755,7 +764,7 @@ static void* watchdog(void* arg) {
 static void run_thread_events(int me, var* held) {
   if (free_mode) {
     int begun = me == 0;
-    for (size_t i = 0; i < nev; i++) {
+    for (size_t i = next_ev[me]; i < nev; i++) {
       Evt* e = &ev[i]; if (e->tid != me) continue;
       if (!begun) { if (e->op != OP_BEGIN) { set_out(e, "dead"); continue; } begun = 1; atomic_store(&phase[me], PH_RUNNING); }
       else if (e->op == OP_BEGIN) { set_out(e, "dead"); continue; }
@@ -764,14 +773,13 @@ static void run_thread_events(int me, var* held) {
       if (e->op == OP_END) {
         cur_ev[me] = 0;
         if (me == 0) { set_out(e, "dead"); continue; }     /* the main thread has no Thread_Init_Run to return to */
-        end_idx[me] = (ssize_t)i;
-        for (size_t j = i + 1; j < nev; j++) if (ev[j].tid == me) set_out(&ev[j], "dead");
+        end_idx[me] = (ssize_t)i; next_ev[me] = i + 1;      /* a later run of this Thread object continues after its `end` */
         return;
       }
       if (is_sync(e->op)) exec_sync_free(e); else exec_local(e, held);
       atomic_fetch_add(&progress, 1);
     }
-    cur_ev[me] = 0;
+    cur_ev[me] = 0; next_ev[me] = nev;
     return;
   }
   __real_pthread_mutex_lock(&bm);
@@ -882,7 +890,10 @@ int main(int argc, char** argv) {
     if ((ev[i].op == OP_SPAWN || ev[i].op == OP_JOIN || ev[i].op == OP_RD) && ev[i].a > nworkers) nworkers = (int)ev[i].a;
   }
   for (int t = 0; t < MAXT; t++) { end_idx[t] = -1; last_pub[t] = 0; }
-  for (size_t i = 0; i < nev; i++) if (ev[i].op == OP_PUB) last_pub[ev[i].tid] = ev[i].a;
+  for (size_t i = 0; i < nev; i++) {            /* what thread t has published last when it reaches each of its `end`s */
+    if (ev[i].op == OP_PUB) last_pub[ev[i].tid] = ev[i].a;
+    if (ev[i].op == OP_END) ev[i].c = last_pub[ev[i].tid];
+  }
   signal(SIGALRM, on_alarm); alarm(getenv("THR_ALARM") ? atoi(getenv("THR_ALARM")) : 45);
   malloc_noise = free_mode && getenv("THR_NO_MALLOC_NOISE") == NULL;
 
